@@ -11,6 +11,7 @@ import (
 	"github.com/casbin/casbin/v2"
 	"github.com/casbin/casbin/v2/model"
 	"github.com/casbin/casbin/v2/persist"
+	fileadapter "github.com/casbin/casbin/v2/persist/file-adapter"
 	stringadapter "github.com/casbin/casbin/v2/persist/string-adapter"
 	"github.com/casbin/casbin/v2/util"
 
@@ -241,6 +242,21 @@ func init() {
 			return true, "child process died or reported failure: " + tail
 		}
 		return false, strings.TrimSpace(tail)
+	}
+	// D29: a failed full load ended the filtered state, so the partial view could be saved over the file
+	witnesses["D29-failed-load-unfilters"] = func() (bool, string) {
+		dir, _ := os.MkdirTemp("", "d29")
+		defer os.RemoveAll(dir)
+		path := dir + "/p.csv"
+		_ = os.WriteFile(path, []byte("p, alice, d, read\np, bob, d, read\n"), 0o644)
+		a := fileadapter.NewFilteredAdapter(path)
+		e, _ := casbin.NewEnforcer(mustModel(rbacText), a)
+		_ = e.LoadFilteredPolicy(&fileadapter.Filter{P: []string{"alice"}})
+		_ = os.WriteFile(path, []byte("p, alice, d, read\np, bob, d, read\np, broken\n"), 0o644)
+		lerr := e.LoadPolicy()
+		serr := e.SavePolicy()
+		after, _ := os.ReadFile(path)
+		return lerr != nil && serr == nil, fmt.Sprintf("LoadPolicy err=%v; SavePolicy err=%v; file now %q", lerr, serr, string(after))
 	}
 	// D8: ClearPolicy kept role links
 	witnesses["D8-clearpolicy-links"] = func() (bool, string) {
